@@ -672,3 +672,85 @@ Proof.
   destruct (configured_spec U t content) as [-> | ->]; [discriminate|].
   destruct (spec_configured U t content); discriminate.
 Qed.
+
+(* ---------- histories of configurations: the heap model = the per-handle look-back Spec ---------- *)
+Definition sop_of (o : hop) : sop :=
+  match o with HNew s => SNew s | HSet i v => SSet i v | HRead i => SRead i | HFmt i c => SFmt i c end.
+
+Definition agrees (r : result str) (e : expect) : Prop :=
+  match e with
+  | EOk s => r = Ok s
+  | EReject => exists k, r = Err k
+  | EBadHandle => r = Err err_handle
+  end.
+
+Definition hinv (st : list str) (past : list sop) : Prop :=
+  length st = created past /\ forall i, nth_error st i = held past i.
+
+Lemma replace_nth_length {A} i (v : A) l : length (replace_nth i v l) = length l.
+Proof. revert i. induction l as [|a r IH]; intros [|i]; simpl; auto. Qed.
+
+Lemma nth_error_replace_nth {A} i (v : A) l k : (i < length l)%nat ->
+  nth_error (replace_nth i v l) k = if Nat.eqb k i then Some v else nth_error l k.
+Proof.
+  revert i k. induction l as [|a r IH]; intros i k Hi; [simpl in Hi; lia|].
+  destruct i as [|i]; destruct k as [|k]; simpl; try reflexivity.
+  apply IH. simpl in Hi. lia.
+Qed.
+
+Lemma default_same : default_format = default_template.
+Proof. reflexivity. Qed.
+
+Lemma hinv_nil : hinv [] [].
+Proof. split; [reflexivity|]. intros [|i]; reflexivity. Qed.
+
+Lemma hstep_refines U st past o : hinv st past ->
+  agrees (fst (hstep U st o)) (expected U past (sop_of o)) /\ hinv (snd (hstep U st o)) (sop_of o :: past).
+Proof.
+  intros [Hl Hn]. destruct o as [s0|i v|i|i c]; cbn [hstep sop_of expected fst snd].
+  - (* NewConfig *)
+    assert (Ef : match s0 with [] => default_format | _ :: _ => s0 end = effective_template s0)
+      by (destruct s0; reflexivity).
+    split.
+    + unfold new_config. rewrite Ef. destruct (is_empty_or_space U (effective_template s0)); cbn; eauto.
+    + rewrite Ef. split; [rewrite app_length; cbn [created length]; lia|].
+      intro k. cbn [held]. rewrite <- Hl.
+      destruct (Nat.eqb_spec k (length st)) as [->|Hne].
+      * rewrite nth_error_app2 by lia. rewrite Nat.sub_diag. reflexivity.
+      * destruct (Nat.lt_ge_cases k (length st)) as [Hlt|Hge].
+        -- rewrite nth_error_app1 by assumption. apply Hn.
+        -- rewrite nth_error_app2 by assumption. rewrite <- Hn.
+           destruct (k - length st)%nat as [|d] eqn:Ed; [lia|]. cbn.
+           symmetry. destruct d; [|]; (apply nth_error_None; lia) || (rewrite (proj2 (nth_error_None st k)) by lia; reflexivity).
+  - (* assignment *)
+    rewrite <- Hl. destruct (Nat.ltb i (length st)) eqn:Elt; cbn [fst snd agrees].
+    + apply Nat.ltb_lt in Elt. split; [reflexivity|]. split; [rewrite replace_nth_length; exact Hl|].
+      intro k. rewrite nth_error_replace_nth by assumption. cbn [held]. rewrite <- Hl.
+      destruct (Nat.eqb_spec k i) as [->|Hne]; cbn [andb].
+      * apply Nat.ltb_lt in Elt. rewrite Elt. reflexivity.
+      * apply Hn.
+    + split; [reflexivity|]. split; [exact Hl|]. intro k. cbn [held]. rewrite <- Hl.
+      destruct (Nat.eqb_spec k i) as [->|Hne]; cbn [andb]; [rewrite Elt|]; apply Hn.
+  - (* read *)
+    rewrite <- Hn. destruct (nth_error st i); cbn [fst snd agrees]; (split; [reflexivity|]); (split; [exact Hl|exact Hn]).
+  - (* format with a configuration *)
+    rewrite <- Hn. destruct (nth_error st i) as [f|]; cbn [fst snd agrees].
+    + split; [|split; [exact Hl|exact Hn]]. rewrite fnf_spec. destruct (spec_format U f c); cbn; eauto.
+    + split; [reflexivity|]. split; [exact Hl|exact Hn].
+Qed.
+
+Lemma hrun_refines U ops : forall st past, hinv st past ->
+  Forall2 agrees (hrun U st ops) (expected_all U past (map sop_of ops)).
+Proof.
+  induction ops as [|o r IH]; intros st past H; cbn [hrun expected_all map]; [constructor|].
+  destruct (hstep_refines U st past o H) as [Ha Hi]. constructor; [exact Ha|]. apply IH. exact Hi.
+Qed.
+
+Lemma held_set_other past i j v : i <> j -> held (SSet j v :: past) i = held past i.
+Proof. intro H. cbn [held]. destruct (Nat.eqb_spec i j); [congruence|reflexivity]. Qed.
+
+Lemma held_new_other past s i : (i < created past)%nat -> held (SNew s :: past) i = held past i.
+Proof. intro H. cbn [held]. destruct (Nat.eqb_spec i (created past)); [lia|reflexivity]. Qed.
+
+Lemma held_new_self past s : held (SNew s :: past) (created past) = Some (effective_template s).
+Proof. cbn [held]. rewrite Nat.eqb_refl. reflexivity. Qed.
